@@ -368,3 +368,51 @@ func TestDeterminism(t *testing.T) {
 		fmt.Fprintf(w, "DET %d %x %x %d %d %s %d\n", idx, res.TraceHash, res.EventHash, res.Steps, res.Yields, res.Outcome, nv)
 	}
 }
+
+// TestSurvey prints a histogram of all oracle signatures over N runs (triage aid).
+func TestSurvey(t *testing.T) {
+	prop := os.Getenv("VERIF_PROP")
+	if prop == "" || os.Getenv("VERIF_SURVEY") == "" {
+		t.Skip()
+	}
+	n := envInt("VERIF_SURVEY", 1000)
+	off := envInt("VERIF_OFFSET", 0)
+	verifSeed := envInt("VERIF_SEED", 1)
+	gens := generators[prop]
+	cnt := map[string]int{}
+	first := map[string]int64{}
+	outcomes := map[string]int{}
+	for idx := off; idx < off+n; idx++ {
+		seed := runSeed(verifSeed, idx)
+		gen := gens[0]
+		if len(gens) > 1 {
+			gen = gens[int(splitmix64(seed)%uint64(len(gens)))]
+		}
+		sc := gen(prop, seed, os.Getenv("VERIF_TIER") == "thorough")
+		res := RunScenario(t, sc, simrt.NewPolicy(sc.Policy), false)
+		outcomes[res.Outcome]++
+		seen := map[string]bool{}
+		for _, v := range res.Viol {
+			k := v.Prop + " " + v.Sig
+			if seen[k] {
+				continue
+			}
+			seen[k] = true
+			if cnt[k] == 0 {
+				first[k] = idx
+			}
+			cnt[k]++
+		}
+		if res.Leftover {
+			cnt["~ bubble-leftover"]++
+			if first["~ bubble-leftover"] == 0 {
+				first["~ bubble-leftover"] = idx
+			}
+		}
+	}
+	keys := sortedKeys(cnt)
+	for _, k := range keys {
+		fmt.Printf("SURVEY %-70s %6d  first=%d\n", k, cnt[k], first[k])
+	}
+	fmt.Println("outcomes", outcomes)
+}
